@@ -413,16 +413,16 @@ namespace nmtools::view
 
             auto l_slice = [&](){
                 if constexpr (meta::is_pointer_v<lhs_type>) {
-                    return apply_slice(*lhs, l_slice_indices);
+                    return view::apply_slice(*lhs, l_slice_indices);
                 } else {
-                    return apply_slice(lhs, l_slice_indices);
+                    return view::apply_slice(lhs, l_slice_indices);
                 }
             }();
             auto r_slice = [&](){
                 if constexpr (meta::is_pointer_v<rhs_type>) {
-                    return apply_slice(*rhs, r_slice_indices);
+                    return view::apply_slice(*rhs, r_slice_indices);
                 } else {
-                    return apply_slice(rhs, r_slice_indices);
+                    return view::apply_slice(rhs, r_slice_indices);
                 }
             }();
             // element multiplication with broadcasting
